@@ -181,8 +181,8 @@ def main():
                 harness_errors.append("%s: %s" % (o["name"], msgs[0][:1500] if msgs else ""))
             elif v == "pre_unsat":
                 harness_errors.append("%s: precondition unsatisfiable (vacuous)" % o["name"])
-            elif v == "refuted":
-                fails = [f for r in rs for f in r.get("failures", [])]
+            fails = [f for r in rs for f in r.get("failures", [])]
+            if v == "refuted" or (fails and v != "harness_error"):
                 if not fails:
                     msgs = [(r.get("message") or "") + "\n" + (r.get("traceback") or "") for r in rs if r["verdict"] == "refuted"]
                     harness_errors.append("%s: refuted without recorded counterexample: %s" % (o["name"], msgs[0][:1500] if msgs else ""))
@@ -227,6 +227,8 @@ def main():
                         harness_errors.append("%s: replay crashed: %s" % (o["name"], (pr.stdout + pr.stderr)[-800:]))
                 rep["counterexamples"] = len(fails)
                 rep["reproduced"] = reproduced
+                if v != "refuted":
+                    rep["note"] = "exploration continued past known findings"
                 # a refuted obligation whose counterexamples are all known findings stays "refuted(known)"
         ob_report.append(rep)
 
